@@ -296,7 +296,7 @@ def worker(args):
     viol, stats, inconc = [], collections.Counter(), []
     for rq, info in crashes:
         viol.append(("crash " + vf.crash_sig(info), "sanitizer report / abnormal exit of the client while completing requests", {"steps": [s for s in rq.get("steps", []) if s.get("op") in ("sendIq", "send", "cut", "disconnect")][:40], "stderr": info["stderr"][-4000:]}))
-    for out, (reqs, events) in zip(outs, metas):
+    for idx_, (out, (reqs, events)) in enumerate(zip(outs, metas)):
         if not out:
             continue
         stats["histories"] += 1
@@ -304,7 +304,9 @@ def worker(args):
             fails = [e for e in out["journal"] if e["ev"] == "await_failed"]
             inconc.append("history stalled at step %s: %s" % (out["stalled"], fails[:1]))
             continue
-        judge(out["journal"], reqs, events, viol, stats)
+        v_, st_, _ = wire.judged(binary, cases[idx_], out, lambda j_, vv, ss: judge(j_, reqs, events, vv, ss))
+        viol += v_
+        stats.update(st_)
     return viol, dict(stats), inconc
 
 
